@@ -9,7 +9,7 @@ import (
 )
 
 func init() {
-	props["C02"] = &propDef{run: runC02, explanation: "Structural clause of C02 decided by static analysis (engine G = exact must-pass-through on success edges of the CFG with interprocedural Ensures summaries; engine P = access-path provenance): every state-producing path of the update/recover/deactivate apply functions crosses the success edge of VerifyJWS on (op.SignedData, key parsed from that same signed data); VerifyJWS succeeds only across VerifySignature on the rebuilt signing input and both verifiers branch on the result of ecdsa/ed25519.Verify; the parser (batch and non-batch) accepts only across the reveal-value hash check on the signing key; signed-data parsing succeeds only across ParseJWS and the protected-header rules (alg present, non-empty, whitelist = {alg,kid}, alg in the configured list); document content / update commitment is installed only behind the delta-hash check on the same delta object; deactivate compares signed and request suffix. Not decided: unforgeability of the signature schemes and hash functions (trusted base). The header whitelist is a test against the constant set {alg,kid} in any spelling, in for-all form, and the loop cannot be bypassed. The JWS rules of C15 run inside this check."}
+	props["C02"] = &propDef{extraPkgs: []string{jsonPatchPkg}, run: runC02, explanation: "Structural clause of C02 decided by static analysis (engine G = exact must-pass-through on success edges of the CFG with interprocedural Ensures summaries; engine P = access-path provenance): every state-producing path of the update/recover/deactivate apply functions crosses the success edge of VerifyJWS on (op.SignedData, key parsed from that same signed data); VerifyJWS succeeds only across VerifySignature on the rebuilt signing input and both verifiers branch on the result of ecdsa/ed25519.Verify; the parser (batch and non-batch) accepts only across the reveal-value hash check on the signing key; signed-data parsing succeeds only across ParseJWS and the protected-header rules (alg present, non-empty, whitelist = {alg,kid}, alg in the configured list); document content / update commitment is installed only behind the delta-hash check on the same delta object; deactivate compares signed and request suffix. Not decided: unforgeability of the signature schemes and hash functions (trusted base). The header whitelist is a test against the constant set {alg,kid} in any spelling, in for-all form, and the loop cannot be bypassed. The JWS rules of C15 run inside this check."}
 }
 
 // tcall: a call found in the call tree of an entry function (in the function itself or in an unexported helper it
@@ -391,6 +391,11 @@ func runC02(c *Ctx) {
 	// "a compact JWS that verifies under the public key": what verification accepts (signature length and split, digest,
 	// Verify result) is decided by the JWS rules of C15, which run inside this check
 	runC15(c)
+	// the delta hash binds the delta only as far as the canonical form tells deltas apart: the JCS rules
+	c.jcsRules()
+	// … and only as far as what is hashed is what is applied: the request is decoded once, by encoding/json's Unmarshal,
+	// into the model the checks and the composer both read (the parser's rules, C07)
+	runC07(c)
 }
 
 // lateStoreEvent: stores to field `fld` of an allocation of struct `named` that are NOT part of the
